@@ -317,3 +317,19 @@ mut("C12 N: Newton loop as a while loop with a counter", [(GAM, "    for _ in 0.
 mut("C12 sample passes a convergence tolerance of 5e8 ulps", [(SAM, "        &const_builder.from_f64(5.0),\n    )\n    .map_err(SamplingError::GammaError)?;", "        &const_builder.from_f64(5.0e8),\n    )\n    .map_err(SamplingError::GammaError)?;")], C12="C12-f")
 mut("C12 lower-tail error measured against q instead of p", [(GAM, "            gamma_lr(a, x_n) - p\n", "            gamma_lr(a, x_n) - q\n")], C12="C12-f")
 mut("C12 N: error with commuted subtraction", [(GAM, "            gamma_lr(a, x_n) - p\n", "            -(p - gamma_lr(a, x_n))\n")], C12=None)
+
+# ---- structs assembled through constructor functions (behaviour-preserving) ----
+mut("N: Metadata assembled by a constructor function", [
+    (LIB, "impl<const D: usize> SampleGenerator<D> {", "impl<T: MomTropFloat, const D: usize> Metadata<T, D> {\n    pub(crate) fn assemble(\n        l_matrix: crate::matrix::SquareMatrix<T>,\n        decompoisiton_result: crate::matrix::DecompositionResult<T>,\n        lambda: T,\n        q_vectors: Vec<Vector<T, D>>,\n        u_vectors: Vec<Vector<T, D>>,\n        shift: Vec<Vector<T, D>>,\n    ) -> Self {\n        Self { l_matrix, decompoisiton_result, lambda, q_vectors, u_vectors, shift }\n    }\n}\n\nimpl<const D: usize> SampleGenerator<D> {"),
+    (SAM, "        Some(Metadata {\n            l_matrix,\n            q_vectors,\n            lambda,\n            shift: compute_only_shift(&decomposed_l_matrix.inverse, &u_vectors),\n            decompoisiton_result: decomposed_l_matrix.clone(),\n            u_vectors,\n        })", "        Some(Metadata::assemble(\n            l_matrix,\n            decomposed_l_matrix.clone(),\n            lambda,\n            q_vectors,\n            u_vectors.clone(),\n            compute_only_shift(&decomposed_l_matrix.inverse, &u_vectors),\n        ))"),
+], **ALLP)
+
+# ---- more behaviour-preserving refactors ----
+mut("N: build_sampler propagates the builder's error with match instead of ?", [(LIB, "        let table = TropicalSubgraphTable::generate_from_tropical(&tropical_graph, D)?;", "        let table = match TropicalSubgraphTable::generate_from_tropical(&tropical_graph, D) {\n            Ok(table) => table,\n            Err(error) => return Err(error),\n        };")], **ALLP)
+mut("N: subset loop over indices instead of a mapped iterator", [(PRE, "        for subgraph in subgraph_iterator {", "        drop(subgraph_iterator);\n        for subset_index in 0..powerset_size {\n            let subgraph = TropicalSubGraphId::from_id(subset_index, num_edges);")], **ALLP)
+mut("N: loop number summed with an explicit loop", [(PRE, "        connected_components\n            .iter()\n            .map(|c| self.get_loop_number_of_connected_component(c))\n            .sum()", "        let mut total = 0;\n        for component in connected_components.iter() {\n            total += self.get_loop_number_of_connected_component(component);\n        }\n        total")], **ALLP)
+mut("N: weight sum with fold", [(PRE, "        edges_in_subgraph\n            .iter()\n            .map(|&i| self.topology[i].weight)\n            .sum()", "        edges_in_subgraph\n            .iter()\n            .fold(0.0, |acc, &i| acc + self.topology[i].weight)")], **ALLP)
+
+# ---- conditional effects inside summarised loops (engine soundness) ----
+mut("C08 L matrix accumulates only edges with a positive signature product", [(SAM, "                if i == j {\n                    temp_l_matrix[(i, j)] += &add;", "                if signature_matrix[e][i] * signature_matrix[e][j] < 0 {\n                    continue;\n                }\n                if i == j {\n                    temp_l_matrix[(i, j)] += &add;")], C08="C08-")
+mut("C08 L matrix skips the mirrored entry when the contribution is negative", [(SAM, "                    temp_l_matrix[(j, i)] += &add;", "                    if signature_matrix[e][i] * signature_matrix[e][j] > 0 {\n                        temp_l_matrix[(j, i)] += &add;\n                    }")], C08="C08-a")
